@@ -953,5 +953,5 @@ RULES = [
     ("C04-R2", r2_append_ranges, 9),
     ("C04-R3", r3_group_edges, 8),
     ("C04-R4", r4_node_ranges, 4),
-    ("C04-R5", r5_index_roles, 25),
+    ("C04-R5", r5_index_roles, 30),
 ]
